@@ -45,6 +45,12 @@ impl Default for Cfg {
 }
 
 pub fn deploy(cfg: &Cfg) -> Chain {
+    deploy_with_tokens(cfg, &[], &[]).expect("deployment")
+}
+
+/// The deployment with initial token balances (C18 quantifies over instantiate messages).
+pub fn deploy_with_tokens(cfg: &Cfg, bsei_init: &[(&str, u128)], stsei_init: &[(&str, u128)]) -> Result<Chain, String> {
+    let ib = |l: &[(&str, u128)]| -> Vec<serde_json::Value> { l.iter().map(|(a, x)| json!({"address": a, "amount": x.to_string()})).collect() };
     let mut c = Chain::new(1000, cfg.unbonding, &cfg.chain_validators);
     c.price = crate::actions::dec(cfg.price).atomics().u128();
     c.instantiate(
@@ -66,15 +72,14 @@ pub fn deploy(cfg: &Cfg) -> Chain {
     .unwrap();
     let reg: Vec<_> = cfg.registered.iter().map(|v| json!({ "address": v })).collect();
     c.instantiate(Kind::Registry, REG, OWNER, &json!({"registry":reg,"hub_contract":HUB})).unwrap();
-    c.instantiate(Kind::Bsei, BSEI, OWNER, &json!({"name":"bsei token","symbol":"BSEI","decimals":6,"initial_balances":[],"hub_contract":HUB})).unwrap();
+    c.instantiate(Kind::Bsei, BSEI, OWNER, &json!({"name":"bsei token","symbol":"BSEI","decimals":6,"initial_balances":ib(bsei_init),"hub_contract":HUB}))?;
     c.instantiate(
         Kind::Stsei,
         STSEI,
         OWNER,
-        &json!({"name":"stsei token","symbol":"STSEI","decimals":6,"initial_balances":[],"hub_contract":HUB,
+        &json!({"name":"stsei token","symbol":"STSEI","decimals":6,"initial_balances":ib(stsei_init),"hub_contract":HUB,
         "marketing":{"project":"p","description":"d","marketing":OWNER,"logo":null}}),
-    )
-    .unwrap();
+    )?;
     c.instantiate(Kind::Swap, SWAP, OWNER, &json!({})).unwrap();
     c.instantiate(Kind::Oracle, ORACLE, OWNER, &json!({})).unwrap();
     c.instantiate(Kind::Sink, AIRDROP, OWNER, &json!({})).unwrap();
@@ -89,7 +94,7 @@ pub fn deploy(cfg: &Cfg) -> Chain {
     for (u, a) in &cfg.funded {
         c.credit(u, USEI, *a);
     }
-    c
+    Ok(c)
 }
 
 /// Run a setup prefix; every step must succeed (seed construction is not part of the explored space).
